@@ -62,6 +62,8 @@ type world struct {
 	fresh      []common.Address
 	held       map[uint64][]*genTx // release height -> txs
 	kindOf     map[common.Hash]string
+	admitted   []types.Tx           // everything the proposer's pool ever admitted, in order
+	committed  map[common.Hash]bool // hashes seen in committed blocks
 	calls      map[common.Hash]*contractInfo
 	signerSets map[common.Hash][]int
 	salt       uint64
